@@ -27,7 +27,10 @@ pub enum Marked {
     /// ICMP echo reply (v4: type 0, v6: type 129) or neighbour advertisement (136)
     Icmp { na: bool, id: u16, seq: u16, data: Hex },
     /// TCP segment with exactly SYN|ACK or exactly RST
-    Tcp { synack: bool, sport: u16, dport: u16, seq: u32, ack: u32, payload: Hex },
+    Tcp { synack: bool, sport: u16, dport: u16, seq: u32, ack: u32, payload: Hex,
+          /// additional flags out of {FIN, URG, ECE, CWR, NS, ACK} (PSH never: PSH+ACK is a data segment)
+          #[serde(default)]
+          extra: u16 },
     /// application message with its protocol's reply marker set
     App { base: AppReq, tcp: bool, sport: u16, dport: u16, variant: u8 },
 }
@@ -52,7 +55,7 @@ pub fn case_strategy() -> impl Strategy<Value = Case> {
         let m = prop_oneof![
             1 => prop_oneof![3 => Just(2u16), 1 => (2u16..12), 1 => any::<u16>().prop_map(|o| if o == 1 { 2 } else { o })].prop_map(|op| Marked::Arp { op }),
             2 => (any::<bool>(), any::<u16>(), any::<u16>(), bytes(40)).prop_map(|(na, id, seq, data)| Marked::Icmp { na, id, seq, data }),
-            2 => (any::<bool>(), port(), port(), any::<u32>(), any::<u32>(), prop_oneof![2 => Just(Hex(vec![])), 1 => bytes(40)]).prop_map(|(synack, sport, dport, seq, ack, payload)| Marked::Tcp { synack, sport, dport, seq, ack, payload }),
+            3 => (any::<bool>(), port(), port(), any::<u32>(), any::<u32>(), prop_oneof![2 => Just(Hex(vec![])), 1 => bytes(40)], prop_oneof![3 => Just(0u16), 2 => prop::sample::select(vec![F_FIN, F_ACK, F_FIN | F_ACK, F_URG, F_ECE, F_CWR, F_NS, F_FIN | F_ACK | F_URG, F_ACK | F_ECE]), 1 => (0u16..512).prop_map(|f| f & !(F_PSH | F_SYN | F_RST))]).prop_map(|(synack, sport, dport, seq, ack, payload, extra)| Marked::Tcp { synack, sport, dport, seq, ack, payload, extra }),
             10 => (markable_app(), any::<bool>(), port(), port(), any::<u8>()).prop_map(|(base, tcp, sport, dport, variant)| Marked::App { base, tcp, sport, dport, variant }),
         ];
         (Just(scn), m).prop_map(|(scn, m)| Case { scn, m })
@@ -188,14 +191,17 @@ pub fn check(c: &Case, st: &mut Stats) -> Check {
                 _ => Ok(()),
             }
         }
-        Marked::Tcp { synack, sport, dport, seq, ack, payload } => {
+        Marked::Tcp { synack, sport, dport, seq, ack, payload, extra } => {
             st.frames(2);
             let twin = tcp_frame(net, &TcpH::new(*sport, *dport, *seq, 0, F_SYN), &[]);
             if sut.frame(&twin).reply().is_none() {
                 st.class("trivial:syn-unanswered");
                 return Ok(());
             }
-            let flags = if *synack { F_SYN | F_ACK } else { F_RST };
+            let flags = (if *synack { F_SYN | F_ACK } else { F_RST }) | (*extra & !(F_PSH | F_SYN | F_RST));
+            if *extra != 0 {
+                st.class("tcp:reply-typed-with-extra-flags");
+            }
             let f = tcp_frame(net, &TcpH::new(*sport, *dport, *seq, *ack, flags), payload);
             st.class(if *synack { "tcp:syn-ack" } else { "tcp:rst" });
             st.nontrivial_hash(fnv(&f));
@@ -271,7 +277,7 @@ fn refl_strategy() -> impl Strategy<Value = Refl> {
         let l2 = if v4 { (0u8..4).prop_map(|pad| Req::Arp { pad }).boxed() } else { (ndp_opts_wf(), any::<bool>()).prop_map(|(opts, unicast)| Req::Ns { opts, unicast, other_dst: None }).boxed() };
         let req = prop_oneof![
             1 => l2,
-            1 => (any::<u16>(), any::<u16>(), bytes(32)).prop_map(|(id, seq, data)| Req::Echo { id, seq, data, pad: 0 }),
+            1 => (any::<u16>(), any::<u16>(), bytes(32)).prop_map(|(id, seq, data)| Req::Echo { id, seq, data, pad: 0, ip4_opts: Hex(vec![]) }),
             1 => (port(), port(), any::<u32>()).prop_map(|(sport, dport, seq)| Req::Syn { sport, dport, seq, extra: 0, payload: Hex(vec![]) }),
             6 => (port(), port(), prop_oneof![4 => app, 1 => stun0]).prop_map(|(sport, dport, pay)| Req::Udp { sport, dport, pay }),
             3 => (port(), port(), any::<u32>(), app2).prop_map(|(sport, dport, isn, pay)| Req::TcpData { sport, dport, isn, pay }),
